@@ -243,13 +243,16 @@ def run_post(C):
     D = [v for k, v in ex.env.items() if C.e.var_names.get(k) == 'cells_to_delete_lst'][0].ref
     n0 = o.len(Lr); m = X.len(D)
     id0 = C.val('max_cell_id_', C.old); id1 = C.val('max_cell_id_', C.new)
+    # the positions of the mothers as remove_index receives them: the index list after std::sort (the model of std::sort makes it a
+    # sorted permutation of the positions recorded by the loop, i.e. the same set of positions)
     def survive(q, k):
-        before = z3.Or(k == 0, X.at(D, k - 1, 'int') < q)
-        after = z3.Or(k == m, q < X.at(D, k, 'int'))
+        before = z3.Or(k == 0, n.at(D, k - 1, 'int') < q)
+        after = z3.Or(k == m, q < n.at(D, k, 'int'))
         return z3.Implies(z3.And(q >= 0, q < n0 + 2 * m, k >= 0, k <= m, before, after), z3.And(n.at(Lr, q - k, 'int') == X.at(Lr, q, 'int'), q - k < n.len(Lr)))
     return [('cover:two-or-more-divisions-in-one-call', m >= 2), ('cover:no-division', m == 0),
             ('each-mother-is-replaced-by-two-cells', n.len(Lr) == n0 + m),
             ('cells-that-did-not-divide-and-all-daughters-stay-in-order', QForall(survive, 2, 'survivors')),
+
             ('old-cells-were-at-their-old-positions-before-the-removal', QForall(lambda k: z3.Implies(z3.And(k >= 0, k < n0), X.at(Lr, k, 'int') == o.at(Lr, k, 'int')), 1, 'prefix')),
             ('id-counter-advanced-by-two-per-division', id1 == id0 + 2 * m),
             ('daughters-carry-consecutive-fresh-ids', QForall(lambda j: z3.Implies(z3.And(j >= 0, j < m), z3.And(n.f(X.at(Lr, n0 + 2 * j, 'int'), CID) == id0 + 2 * j,
